@@ -845,6 +845,29 @@ def _loops_to_comprehensions(fn: ast.AST) -> int:
         i = 0
         while i < len(blk):
             st = blk[i]
+            # search loops: `for x in I: if P: return True` + `return False`  ==  `return any(P for x in I)`  (dually all())
+            if isinstance(st, ast.For) and not st.orelse and i + 1 < len(blk) and isinstance(blk[i + 1], ast.Return) and isinstance(blk[i + 1].value, ast.Constant) and isinstance(blk[i + 1].value.value, bool):
+                body = [x for x in st.body if not isinstance(x, ast.Pass)]
+                if len(body) == 1 and isinstance(body[0], ast.If):
+                    iff = body[0]
+                    tb = [x for x in iff.body if not isinstance(x, ast.Pass)]
+                    eb = [x for x in iff.orelse if not isinstance(x, ast.Pass)]
+                    hit, test = None, None
+                    if len(tb) == 1 and not eb and isinstance(tb[0], ast.Return):
+                        hit, test = tb[0], iff.test
+                    elif len(eb) == 1 and not tb and isinstance(eb[0], ast.Return):
+                        hit, test = eb[0], _negate(iff.test)
+                    if hit is not None and isinstance(hit.value, ast.Constant) and isinstance(hit.value.value, bool) and hit.value.value != blk[i + 1].value.value:
+                        gen = ast.comprehension(st.target, st.iter, [], 0)
+                        if hit.value.value:
+                            val = ast.Call(ast.Name("any", ast.Load()), [ast.GeneratorExp(test, [gen])], [])
+                        else:
+                            val = ast.Call(ast.Name("all", ast.Load()), [ast.GeneratorExp(_negate(test), [gen])], [])
+                        new = _loc(ast.Return(val), st)
+                        ast.fix_missing_locations(new)
+                        blk[i : i + 2] = [new]
+                        changed += 1
+                        continue
             # `x = [fresh list]; x.sort(..)`  ==  `x = sorted([fresh list], ..)`   (likewise `.reverse()` -> list(reversed(..)))
             if isinstance(st, ast.Expr) and isinstance(st.value, ast.Call) and isinstance(st.value.func, ast.Attribute) and st.value.func.attr == "sort" and isinstance(st.value.func.value, ast.Name) and not st.value.args and i > 0:
                 nm = st.value.func.value.id
@@ -1133,6 +1156,29 @@ def inline_helpers(fn: ast.FunctionDef, helpers: Dict[str, Tuple[ast.FunctionDef
                         n, tmp, probe = lifted
                         st.value = probe
                         blk.insert(i, _loc(ast.Assign([ast.Name(tmp, ast.Store())], n), st))
+                        changed += 1
+                        did = True
+                        continue
+                # `x = {K: V for T in gen_helper(args) if F}`  ==  `x = {}; for T in gen_helper(args): if F: x[K] = V`  (so that the
+                # generator helper can be inlined into the loop, next)
+                if isinstance(st, ast.Assign) and len(st.targets) == 1 and isinstance(st.targets[0], ast.Name) and isinstance(st.value, (ast.DictComp, ast.ListComp)) and len(st.value.generators) == 1 and not st.value.generators[0].is_async:
+                    g_ = st.value.generators[0]
+                    hn_ = _helper_call(g_.iter, helpers, cls)
+                    if hn_ is not None and any(isinstance(y, (ast.Yield, ast.YieldFrom)) for y in ast.walk(helpers[hn_][0])) and not _uses(st.value, st.targets[0].id):
+                        acc = st.targets[0].id
+                        if isinstance(st.value, ast.DictComp):
+                            init = ast.Dict([], [])
+                            put = ast.Assign([ast.Subscript(ast.Name(acc, ast.Load()), st.value.key, ast.Store())], st.value.value)
+                        else:
+                            init = ast.List([], ast.Load())
+                            put = ast.Expr(ast.Call(ast.Attribute(ast.Name(acc, ast.Load()), "append", ast.Load()), [st.value.elt], []))
+                        body_ = [put]
+                        for f_ in reversed(g_.ifs):
+                            body_ = [ast.If(f_, body_, [])]
+                        new_ = [_loc(ast.Assign([ast.Name(acc, ast.Store())], init), st), _loc(ast.For(g_.target, g_.iter, body_, [], None), st)]
+                        for s_ in new_:
+                            ast.fix_missing_locations(s_)
+                        blk[i : i + 1] = new_
                         changed += 1
                         did = True
                         continue
@@ -1548,11 +1594,17 @@ def canonicalise(tree: ast.Module, ref_funcs: Optional[Set[str]], ref_consts: Op
         if ref_funcs is None:
             return 0
         nested = {}
-        for st in fn.body:
-            if isinstance(st, ast.FunctionDef) and f"{q}.<locals>.{st.name}" not in ref_funcs and not st.decorator_list and not _recursive(st):
-                if any(isinstance(x, (ast.Nonlocal, ast.Global, ast.Yield, ast.YieldFrom)) for x in ast.walk(st)):
-                    continue
-                nested[st.name] = (st, False)
+        homes = {}
+        for blk in _blocks_of(fn):
+            for st in blk:
+                if isinstance(st, ast.FunctionDef) and f"{q}.<locals>.{st.name}" not in ref_funcs and not st.decorator_list and not _recursive(st):
+                    if any(isinstance(x, (ast.Nonlocal, ast.Global, ast.Yield, ast.YieldFrom)) for x in ast.walk(st)):
+                        continue
+                    if st.name in nested:
+                        nested.pop(st.name)
+                        continue  # two local functions of one name: which one a call means depends on the path
+                    nested[st.name] = (st, False)
+                    homes[st.name] = blk
         if not nested:
             return 0
         for _nm, (hdef, _m) in nested.items():
@@ -1563,8 +1615,10 @@ def canonicalise(tree: ast.Module, ref_funcs: Optional[Set[str]], ref_consts: Op
         n = inline_helpers(fn, nested, None, canon)
         for nm_, (hdef, _m) in nested.items():
             still = any(isinstance(x, ast.Name) and x.id == nm_ and isinstance(x.ctx, ast.Load) for x in ast.walk(fn))
-            if not still and hdef in fn.body:
-                fn.body.remove(hdef)
+            if not still and hdef in homes.get(nm_, []):
+                homes[nm_].remove(hdef)
+                if not homes[nm_]:
+                    homes[nm_].append(ast.Pass())
                 n += 1
         if n:
             stats["inlined_helpers"] += n
